@@ -31,7 +31,7 @@ EXPECTED_PINS = {
     "hc_url": "[\x00-\x20\x7f]",
     "hc_name": rb"[^:\s][^:\r\n]*",
     "hc_value": rb"\n(?![ \t])|\r(?![ \t\n])",
-    "h2_name": rb"^[!#$%&'*+\-.^_`|~0-9a-z]+$",
+    "h2_name": rb"^[!#$%&'*+\-.^_`|~0-9a-z]+\Z",
     "h2_value": rb"[\0\x00\x0a\x0d\r\n]|^[ \r\n\t]|[ \r\n\t]$",
 }
 
